@@ -76,8 +76,8 @@ Qed.
 (* the configuration of the witnesses below: client A with a secret (it may choose audiences), client B
    secret-less, RSA signer *)
 Definition idp0 : idp :=
-  {| srv := srv0; clients := [ {| cl_id := b "clientA"; cl_secret := b "secretA"; cl_allow_aud := true |};
-                               {| cl_id := b "clientB"; cl_secret := []; cl_allow_aud := false |} ] |}.
+  {| srv := srv0; clients := [ {| cl_id := b "clientA"; cl_secret := b "secretA"; cl_allow_aud := true; cl_other := [] |};
+                               {| cl_id := b "clientB"; cl_secret := []; cl_allow_aud := false; cl_other := [] |} ] |}.
 
 (* ---------------------------------------------------------------- redirect_uri at the token endpoint *)
 
@@ -215,7 +215,7 @@ Definition areq0 (client chal meth : bs) : areq :=
      ar_nonce := b "nonce123"; ar_jti := b "jti" |}.
 
 Definition treq0 (code : token) (basic : option (bs * bs)) (fc verifier vhash : bs) : treq :=
-  {| tr_post := true; tr_grant := gt_authcode; tr_redirect := b "https://a.example/cb"; tr_code := code;
+  {| tr_conn := conn_none; tr_post := true; tr_grant := gt_authcode; tr_redirect := b "https://a.example/cb"; tr_code := code;
      tr_verifier := verifier; tr_vhash := vhash; tr_basic := basic; tr_form_client := fc; tr_form_secret := [] |}.
 
 Definition is_release (r : tresult) : bool := match r with Release _ _ => true | Refuse _ => false end.
@@ -299,4 +299,98 @@ Proof.
   split.
   - destruct (c12_idtoken_sole_audience _ _ _ _ _ T) as [_ L]. exact L.
   - vm_compute. discriminate.
+Qed.
+
+(* ---------------------------------------------------------------- the client's other options *)
+
+(* A client that HAS a secret is authenticated by that secret and by nothing else: whenever tokens are
+   released to a caller naming a configured client whose client_secret is non-empty, the secret the
+   request shows (header first, else body) IS that secret and the request carries no code_verifier -
+   for every value of every other option in the client's configuration entry ([cl_other c] and
+   [cl_allow_aud c] are universally quantified with [i]). *)
+Theorem c12_secret_client_needs_secret : forall i now r idt act c,
+  token_endpoint i now r = Release idt act ->
+  find_client (fst (presented_creds r)) (clients i) = Some c -> cl_secret c <> [] ->
+  snd (presented_creds r) = cl_secret c /\ tr_verifier r = [].
+Proof.
+  intros i now r idt act c R F NE. apply token_release_sound in R.
+  destruct R as [k [c' [_ [_ [F' [[[_ [V S]]|[E _]] _]]]]]]; rewrite F in F'; inversion F'; subst c'.
+  - split; assumption.
+  - contradiction.
+Qed.
+
+Lemma find_client_reopt f id l :
+  find_client id (map (fun c => with_other c (f c)) l) = option_map (fun c => with_other c (f c)) (find_client id l).
+Proof.
+  induction l as [|c l IH]; [reflexivity|]. cbn [map find_client with_other cl_id].
+  destruct (bs_eqb (cl_id c) id); [reflexivity|exact IH].
+Qed.
+
+(* The release decision, the released tokens and the authorization step do not depend on the other
+   options: replacing them by ANY other values (per client: [f]) changes the answer of neither
+   endpoint, for every daemon, clock and request. *)
+Theorem c12_release_ignores_options : forall f i now,
+  (forall r, token_endpoint (reopt f i) now r = token_endpoint i now r) /\
+  (forall u a, authorize (reopt f i) now u a = authorize i now u a).
+Proof.
+  intros f i now. split.
+  - intro r. unfold token_endpoint, token_endpoint_gen, reopt. cbn [srv clients].
+    rewrite !andb_false_l. cbn [negb]. rewrite !andb_true_r.
+    destruct (tr_post r); [|reflexivity]. cbn [negb].
+    destruct (bs_eqb (tr_grant r) gt_authcode); [|reflexivity]. cbn [negb].
+    destruct (nonempty (tr_redirect r)); [|reflexivity]. cbn [negb].
+    destruct (verify (srv i) (tr_code r)); [|reflexivity]. cbn [negb].
+    destruct (dec_code (t_claims (tr_code r))); [|reflexivity].
+    destruct (caller r) as [[id pass]|s]; [|reflexivity].
+    rewrite find_client_reopt. destruct (find_client id (clients i)) as [cc|]; reflexivity.
+  - intros u a. unfold authorize, reopt. cbn [srv clients].
+    rewrite find_client_reopt. destruct (find_client (ar_client a) (clients i)) as [cc|]; reflexivity.
+Qed.
+
+(* NOT the code: were there an option that admits a client WITH a secret to PKCE (the handler otherwise
+   as it is), a caller showing no secret at all - only the verifier of the challenge that whoever started
+   the flow chose - would get tokens for that client, where the code answers 401. *)
+Theorem c12_pkce_option_refuted : exists i now r idt act c,
+  token_endpoint_pkce_option i now r = Release idt act /\
+  find_client (fst (presented_creds r)) (clients i) = Some c /\ cl_secret c <> [] /\
+  snd (presented_creds r) <> cl_secret c /\ token_endpoint i now r = Refuse 401.
+Proof.
+  pose (i := reopt (fun _ => [(b "option", b "true")]) idp0).
+  pose (code := p_code srv0 (1000 * NS) (b "clientA") (b "alice") (b "openid") (b "https://a.example/cb") (b "nonce123")
+                       (b "jti") (b "HASH") m_S256 []).
+  pose (r := treq0 code None (b "clientA") (b "verifier") (b "HASH")).
+  destruct (token_endpoint_pkce_option i (1010 * NS) r) as [idt act|s] eqn:E; [|vm_compute in E; discriminate E].
+  exists i, (1010 * NS), r, idt, act. eexists. split; [exact E|].
+  split; [vm_compute; reflexivity|]. split; [discriminate|]. split; [vm_compute; discriminate|].
+  vm_compute. reflexivity.
+Qed.
+
+(* ---------------------------------------------------------------- the name the caller used (Host header, TLS server name) *)
+
+(* The issuer is a function of the configuration only: for every daemon, clock and token request, over
+   every connection [cn] (Host header and SNI absent, the server's own name, a foreign name in both, a
+   different name in each) the token endpoint answers the same - same verdict, and on release the SAME
+   ID token and access token, whose iss is s_issuer of the configuration (c12_idtoken); userinfo accepts
+   the same tokens for the same users and the discovery document names the same issuer. *)
+Theorem c12_issuer_ignores_request : forall i now r cn,
+  token_endpoint i now (with_conn r cn) = token_endpoint i now r /\
+  (forall t, userinfo_endpoint i now cn t = c_userinfo (srv i) now t) /\
+  discovery i cn = (s_issuer (srv i), s_userinfo (srv i)).
+Proof. intros. split; [reflexivity|]. split; reflexivity. Qed.
+
+(* ... in particular the iss claim of both released tokens, read directly *)
+Theorem c12_issuer_is_configured : forall i now r idt act, token_endpoint i now r = Release idt act ->
+  rd_str "iss" (t_claims idt) = Some (s_issuer (srv i)) /\ rd_str "iss" (t_claims act) = Some (s_issuer (srv i)).
+Proof.
+  intros i now r idt act R. apply token_release_sound in R.
+  destruct R as [k [c [_ [_ [_ [_ [_ [_ [_ [_ [-> ->]]]]]]]]]]]. split; reflexivity.
+Qed.
+
+(* NOT the code: an issuer that follows the request when Host and SNI agree (OIDC.issuer_for): a caller
+   that announces a foreign name in both gets that name as issuer. *)
+Theorem c12_issuer_from_request_refuted : exists st own cn,
+  issuer_for st own cn <> s_issuer st /\ issuer_for st own conn_none = s_issuer st.
+Proof.
+  exists srv0, (b "keymaster.example"), {| cn_host := b "accounts.evil.example"; cn_sni := Some (b "accounts.evil.example") |}.
+  split; [vm_compute; discriminate|reflexivity].
 Qed.
